@@ -1,0 +1,7 @@
+//go:build !verif
+
+package ipfslog
+
+// verifYield is a no-op unless the package is built with -tags verif
+// (see verif_on.go: yield points for schedule-controlled tests).
+func verifYield(*IPFSLog, string) {}
